@@ -240,3 +240,209 @@ def presence_table(fb, fn, shape):
         except _Abort:
             out[bits] = UNDECIDED
     return out
+
+
+# ================================================================================================ bit-length classes
+# A second finite domain: an i32 seen only through shifts, comparisons with 0 and leading_zeros is characterised by the bit
+# length of its unsigned image, c = 32 - (n as u32).leading_zeros() in 0..=32 (32 = negative). Two functions that partition the
+# integers by magnitude — how many bytes an ITF-8 value is DECLARED to take and how many are WRITTEN — can be compared class by
+# class without running either.
+import re as _re
+
+
+def _bits_model_call(fk, args, dest_ty):
+    tail = fk.split("::")[-1]
+    if tail == "leading_zeros" and args and args[0] is not None and args[0][0] == "cls":
+        return ("int", 32 - args[0][1])
+    if tail in ("to_be_bytes", "to_le_bytes", "to_ne_bytes"):
+        m = _re.match(r"\[u8; (\d+)\]", dest_ty or "")
+        return ("arr", int(m.group(1))) if m else None
+    return None
+
+
+def interpret_bits(fb, fn, args, fuel=600):
+    """Returns (abstract result, bytes handed to write_all) or raises _Abort."""
+    env = {i + 1: a for i, a in enumerate(args)}
+    written = 0
+    b = 0
+
+    def val(op):
+        if op[0] == "k":
+            k = op[1]
+            if "v" in k and isinstance(k["v"], (int, bool)):
+                return ("bool", bool(k["v"])) if k.get("ty") == "bool" else ("int", int(k["v"]))
+            return None
+        if op[0] in ("c", "m"):
+            v = env.get(op[1][0])
+            for p in op[1][1]:
+                if v is None:
+                    return None
+                if p == "*":
+                    continue
+                if isinstance(p, list) and p[0] == "f" and v[0] == "tuple":
+                    v = v[1][p[1]] if p[1] < len(v[1]) else None
+                elif isinstance(p, list) and p[0] in ("dc",):
+                    continue
+                elif isinstance(p, list) and p[0] == "f" and v[0] == "cf":
+                    v = ("unit",)
+                else:
+                    return None
+            return v
+        return None
+
+    def lty(op):
+        l = C.op_local(op)
+        return fn.locals[l] if l is not None else (op[1].get("ty") if op[0] == "k" else None)
+
+    while fuel > 0:
+        fuel -= 1
+        blk = fn.blocks[b]
+        for st in blk["s"]:
+            if st[0] != "=" or st[1][1]:
+                continue
+            rv = st[2]
+            k = rv[0]
+            v = None
+            if k == "use":
+                v = val(rv[1])
+            elif k == "ref":
+                v = val(["c", rv[2]])
+            elif k == "cast":
+                src = val(rv[2])
+                if rv[1] == "IntToInt":
+                    if src is not None and src[0] == "cls":
+                        frm, to = rv[3], rv[4]
+                        v = src if to in ("u32", "i32", "u64", "i64", "usize", "isize") and not (src[1] == 32 and to in ("u64", "i64", "usize", "isize")) else None
+                    else:
+                        v = src
+                elif rv[1] == "Coerce:Unsize":
+                    m = _re.match(r"&(?:mut )?\[u8; (\d+)\]", rv[3] or "")
+                    v = ("arr", int(m.group(1))) if m else src
+                else:
+                    v = src
+            elif k == "agg":
+                if rv[1] == "array":
+                    v = ("arr", len(rv[4]))
+                elif rv[1] == "tuple":
+                    v = ("tuple", [val(o) for o in rv[4]])
+                elif rv[1] == "adt" and "ops::range::RangeFrom" in rv[2]:
+                    v = ("rangefrom", val(rv[4][0]))
+                elif rv[1] == "adt" and rv[2].endswith("ops::range::RangeTo"):
+                    v = ("rangeto", val(rv[4][0]))
+                elif rv[1] == "adt" and rv[2].endswith("ops::range::Range"):
+                    v = ("range", val(rv[4][0]), val(rv[4][1]))
+            elif k == "discr":
+                src = val(["c", rv[1]])
+                v = ("int", 0) if src is not None and src[0] == "cf" else None
+            elif k == "un":
+                src = val(rv[2])
+                if rv[1] == "Not" and src is not None and src[0] == "bool":
+                    v = ("bool", not src[1])
+            elif k == "bin":
+                a, c_ = val(rv[2]), val(rv[3])
+                op = rv[1]
+                if a is not None and c_ is not None:
+                    if a[0] == "int" and c_[0] == "int":
+                        x, y = a[1], c_[1]
+                        base = op.replace("WithOverflow", "")
+                        r = {"Add": x + y, "Sub": x - y, "Mul": x * y, "Shl": x << y if 0 <= y < 64 else 0, "Shr": x >> y if 0 <= y < 64 else 0,
+                             "BitAnd": x & y, "BitOr": x | y, "BitXor": x ^ y}.get(base)
+                        if r is not None:
+                            v = ("tuple", [("int", r), ("bool", False)]) if op.endswith("WithOverflow") else ("int", r)
+                        elif op in ("Eq", "Ne", "Lt", "Le", "Gt", "Ge"):
+                            v = ("bool", {"Eq": x == y, "Ne": x != y, "Lt": x < y, "Le": x <= y, "Gt": x > y, "Ge": x >= y}[op])
+                    elif a[0] == "cls" and c_[0] == "int":
+                        c0, y = a[1], c_[1]
+                        signed = (lty(rv[2]) or "").startswith("i")
+                        if op == "Shr":
+                            v = ("cls", 32) if (c0 == 32 and signed) else ("cls", max(c0 - y, 0))
+                        elif op in ("Eq", "Ne") and y == 0:
+                            v = ("bool", (c0 == 0) if op == "Eq" else (c0 != 0))
+                        elif op in ("Lt", "Le", "Gt", "Ge") and y >= 0 and not (c0 == 32 and signed):
+                            # n < 2^k  <=>  bit length <= k ;  n <= 2^k - 1 likewise
+                            yy = y + 1 if op in ("Le", "Gt") else y
+                            if yy > 0 and yy & (yy - 1) == 0:
+                                kbits = yy.bit_length() - 1
+                                lt = c0 <= kbits
+                                v = ("bool", lt if op in ("Lt", "Le") else not lt)
+                        elif op in ("Lt", "Le") and c0 == 32 and signed and y >= 0:
+                            v = ("bool", True)
+                        elif op in ("Gt", "Ge") and c0 == 32 and signed and y >= 0:
+                            v = ("bool", False)
+            env[st[1][0]] = v
+        t = blk["t"]
+        k = t[0]
+        if k == "ret":
+            return env.get(0), written
+        if k in ("goto", "fu"):
+            b = t[1]
+        elif k == "fe":
+            b = t[1]
+        elif k == "drop":
+            b = t[2]
+        elif k == "assert":
+            b = t[4]
+        elif k == "sw":
+            v = val(t[1])
+            if v is None or v[0] not in ("bool", "int"):
+                raise _Abort("switch on an unknown value")
+            n = int(v[1])
+            nxt = None
+            for vv, tgt in t[2]:
+                if vv == n:
+                    nxt = tgt
+            b = nxt if nxt is not None else t[3]
+            if b is None:
+                raise _Abort("no switch target")
+        elif k == "call":
+            c = t[1]
+            fk = c.get("f") or ""
+            a = [val(x) for x in c["args"]]
+            d = c.get("dest")
+            dty = fn.locals[d[0]] if d is not None and not d[1] else None
+            res = _bits_model_call(fk, a, dty)
+            tail = fk.split("::")[-1]
+            if res is None:
+                if _re.search(r"Write>?::write_all$", fk) and len(a) == 2 and a[1] is not None and a[1][0] == "arr":
+                    written += a[1][1]
+                    res = ("ok",)
+                elif _re.search(r"Write>?::write_all$", fk):
+                    raise _Abort("write_all of a buffer of unknown length")
+                elif tail == "branch" and a and a[0] is not None and a[0][0] == "ok":
+                    res = ("cf",)
+                elif _re.search(r"ops::index::Index<.*>::index$", fk) and len(a) == 2 and a[1] is not None and (
+                        (a[0] is not None and a[0][0] == "arr") or _re.match(r"&(?:mut )?\[u8; (\d+)\]", lty(c["args"][0]) or "")):
+                    if a[0] is None or a[0][0] != "arr":
+                        a[0] = ("arr", int(_re.match(r"&(?:mut )?\[u8; (\d+)\]", lty(c["args"][0])).group(1)))
+                    n0, r = a[0][1], a[1]
+                    if r[0] == "rangefrom" and r[1] is not None and r[1][0] == "int":
+                        res = ("arr", n0 - r[1][1])
+                    elif r[0] == "rangeto" and r[1] is not None and r[1][0] == "int":
+                        res = ("arr", r[1][1])
+                    elif r[0] == "range" and None not in (r[1], r[2]) and r[1][0] == "int" and r[2][0] == "int":
+                        res = ("arr", r[2][1] - r[1][1])
+            if d is not None and not d[1]:
+                env[d[0]] = res
+            if c.get("t") is None:
+                raise _Abort("diverging call")
+            b = c["t"]
+        else:
+            raise _Abort("terminator " + k)
+    raise _Abort("out of fuel")
+
+
+def bit_class_table(fb, fn, argpos, nargs, want):
+    """want: 'result' (the integer returned) or 'written' (bytes handed to write_all). Returns {class: int | UNDECIDED}."""
+    out = {}
+    for c in range(0, 33):
+        args = [None] * nargs
+        args[argpos] = ("cls", c)
+        try:
+            r, w = interpret_bits(fb, fn, args)
+            if want == "written":
+                out[c] = w
+            else:
+                out[c] = r[1] if r is not None and r[0] == "int" else UNDECIDED
+        except _Abort:
+            out[c] = UNDECIDED
+    return out
